@@ -136,6 +136,14 @@ where
             }
         };
 
+        // Every slot (the terminator too) lies on a multiple of the vector's alignment.
+        if !last && item_len % FlexVec::<T, L>::ALIGN != 0 {
+            return Some(Err(Error {
+                kind: ErrorKind::InvalidData,
+                pos: self.pos,
+            }));
+        }
+
         let payload_offset = FlexVec::<T, L>::OFFSET_SIZE;
         if payload_offset > item_len {
             return Some(Err(Error {
